@@ -25,7 +25,7 @@ ASSUMPTIONS = [
     "predicates are pure functions of the offered NodeTraversalInfo",
     "reference walker (20 lines) encodes the statement: pruned nodes are offered to filter, their descendants are not visited",
 ]
-MUST_SEE = ["prune_not_filter_with_desc", "falsy_children", "shared_objects", "bottom_up_with_prune", "gather_calls", "deep_chain"]
+MUST_SEE = ["prune_not_filter_with_desc", "falsy_children", "shared_objects", "bottom_up_with_prune", "gather_calls", "deep_chain", "deep_3000_traversals", "abandoned_traversals", "reentrant_predicates"]
 CONFIG = {
     "quick": {"shards": 16, "small_trees": 600, "exh_n": 4, "large_trees": 300, "watchdog_s": 300},
     "thorough": {"shards": 32, "small_trees": 400, "exh_n": 6, "large_trees": 250, "watchdog_s": 3000},
@@ -78,13 +78,51 @@ def ref_bfs(U, root_pos, pruned, cache):
     return out
 
 
+def deep_under_default_limit(ctx, U):
+    """dfs / bfs / gather are promised for all trees: a chain 3000 deep, built iteratively, traversed with the
+    interpreter's default recursion limit (the harness' own high limit must not hide a recursive traversal)."""
+    P = U.P
+    node = U.cls[f"{P}Leaf"](v=1)
+    chain = [node]
+    for i in range(3000):
+        node = U.cls[f"{P}Un"](child=node)
+        chain.append(node)
+    chain.reverse()  # root first
+    old = sys.getrecursionlimit()
+    sys.setrecursionlimit(1000)
+    try:
+        for name, call, exp in (
+            ("dfs", lambda: [i.node for i in node.dfs()], chain[1:]),
+            ("dfs_bottom_up", lambda: [i.node for i in node.dfs(bottom_up=True)], list(reversed(chain[1:]))),
+            ("bfs", lambda: [i.node for i in node.bfs()], chain[1:]),
+            ("gather", lambda: list(node.gather(U.cls[f"{P}Expr"])), chain[1:]),
+            ("gather_exact", lambda: list(node.gather((U.cls[f"{P}Leaf"],), exact_type=True)), chain[-1:]),
+        ):
+            ctx.evaluations += 1
+            ctx.count("deep_3000_traversals")
+            try:
+                got = call()
+            except RecursionError:
+                ctx.violation("deep-tree-recursion", f"{name} raised RecursionError on a tree 3000 levels deep", {"depth": 3000})
+                continue
+            if [id(x) for x in got] != [id(x) for x in exp]:
+                ctx.violation(f"{name}-stream-mismatch", f"{name} wrong on a deep chain", {"depth": 3000, "got_len": len(got)})
+    finally:
+        sys.setrecursionlimit(old)
+    node.detach()
+
+
 def run_shard(ctx):
     sys.setrecursionlimit(20000)
     U = core_universe()
     from vlib.spec import Pos
 
     P = U.P
+    from pyoak.node import ASTNode
     n_small = ctx.params["small_trees"]
+    from vlib.universe import warm_up
+
+    ctx.extra["first_use_order"] = warm_up(U, ctx.rng("warm-up"))[:6]
     n_large = ctx.params["large_trees"]
     exh_n = ctx.params["exh_n"]
 
@@ -95,11 +133,12 @@ def run_shard(ctx):
         if special:
             k = case - n_small - n_large
             if k == 0:
-                # deep chain
+                # deep chain (the second half of this case repeats it at depth 3000 under the default recursion limit)
                 s = S(f"{P}Leaf", {"v": 1})
                 for i in range(200):
                     s = S(f"{P}Un", {"op": str(i % 3)}, {"child": s})
                 ctx.count("deep_chain")
+                deep_under_default_limit(ctx, U)
             elif k == 1:
                 # wide tuple 14
                 s = S(f"{P}List", {}, {"items": tuple(S(f"{P}Leaf", {"v": i}) for i in range(14)), "root": S(f"{P}Falsy", {"v": 1})})
@@ -234,6 +273,41 @@ def run_shard(ctx):
         for k_, o in enumerate(objs):
             idx_of[id(o)] = k_
 
+        # hostile predicates: one that raises part-way (the traversal is abandoned), one that traverses / compares
+        # inside the predicate (re-entrancy); the following ordinary traversals must be unaffected
+        if n >= 2 and rng.random() < 0.5:
+            class _Stop(Exception):
+                pass
+
+            cnt = [0]
+            lim = rng.randint(1, n)
+
+            def raising(info):
+                cnt[0] += 1
+                if cnt[0] >= lim:
+                    raise _Stop()
+                return True
+
+            for make in (lambda: root.dfs(filter=raising), lambda: root.dfs(prune=lambda i: not raising(i)), lambda: root.gather(ASTNode, extra_filter=raising), lambda: root.bfs(filter=raising)):
+                cnt[0] = 0
+                try:
+                    list(make())
+                except _Stop:
+                    ctx.count("abandoned_traversals")
+
+            def reentrant(info):
+                list(info.node.dfs())
+                list(info.node.gather(ASTNode))
+                return info.node == info.node
+
+            got = list(root.dfs(filter=reentrant))
+            ctx.evaluations += 1
+            ctx.count("reentrant_predicates")
+            if [(id(i.node), id(i.parent), i.field.name, i.findex) for i in got] != [expect_tuple(p) for p in all_pre]:
+                ctx.violation("dfs-reentrant", "dfs with a predicate that itself traverses / compares nodes yielded a wrong stream", {"tree": spec_json(s)})
+            got = list(root.gather(ASTNode, extra_filter=reentrant))
+            if [id(x) for x in got] != [id(obj[id(p)]) for p in all_pre]:
+                ctx.violation("gather-reentrant", "gather with a re-entrant predicate yielded a wrong stream", {"tree": spec_json(s)})
         for pr, fl, how in pred_sets():
             flog: list = []
             plog: list = []
